@@ -118,11 +118,23 @@ func c17Run(c *harness.Check, cs respCase) string {
 		if cs.Defaults {
 			conf = nil
 		}
+		// zzRenderOther renders another template of the directory while a page is being
+		// rendered (what a helper function of an application may do)
+		var loaded *textwire.Template
+		textwire.RegisterStrFunc("zzRenderOther", func(s string, args ...any) string {
+			if loaded == nil {
+				return "(not loaded)"
+			}
+			w := httptest.NewRecorder()
+			loaded.Response(w, s, nil)
+			return w.Body.String()
+		})
 		tpl, lerr := textwire.NewTemplate(conf)
 		if lerr != nil {
 			failure = "harness: tree does not load: " + lerr.Error()
 			return
 		}
+		loaded = tpl
 		data := cs.Data.GoMap()
 		strOut, ferr := tpl.String(cs.Page, data)
 		w := httptest.NewRecorder()
@@ -211,7 +223,12 @@ func c17Run(c *harness.Check, cs respCase) string {
 				}
 			}
 		} else {
-			for _, need := range []string{msg, ferr.Filepath(), fmt.Sprint(ferr.Line())} {
+			needs := []string{msg, ferr.Filepath(), fmt.Sprint(ferr.Line())}
+			if _, exists := cs.Files[cs.Page]; exists {
+				// every generated fault is written in the page's own file
+				needs = append(needs, pageAbs)
+			}
+			for _, need := range needs {
 				if !strings.Contains(body, need) {
 					failure = fmt.Sprintf("debug mode is on but the body lacks %q", need)
 					return
@@ -242,7 +259,8 @@ func c17Page(rt *rapid.T) (files map[string]string, page string, markers []strin
 	long := "zz" + strings.Repeat("VeryLongIdentifier_", 16) // messages that embed a name can be long: shown whole or not at all
 	fault := rapid.SampledFrom([]string{"{{ zzMissing }}", "{{ 1 / 0 }}", "{{ name + 1 }}", "{{ name.nosuchfn() }}", "{{ {a: 1}.zz }}",
 		"{{ " + long + " }}", "{{ {a: 1}." + long + " }}", "{{ name." + long + "() }}"}).Draw(rt, "fault")
-	shape := rapid.SampledFrom([]string{"ok", "ok-layout", "top", "in-loop", "in-layout", "in-component", "in-slot", "missing"}).Draw(rt, "shape")
+	shape := rapid.SampledFrom([]string{"ok", "ok-layout", "top", "in-loop", "in-layout", "in-component", "in-slot", "missing", "after-nested-render", "ok-nested-render"}).Draw(rt, "shape")
+	files["other"] = "<OTHER-MARK>{{ 1 + 1 }}</OTHER-MARK>"
 	note = shape
 	page = "page"
 	switch shape {
@@ -265,6 +283,14 @@ func c17Page(rt *rapid.T) (files map[string]string, page string, markers []strin
 	case "in-slot":
 		files["page"], fails = b.String()+"@component(\"comp\", {v: 1})\n@slot SLOT-MARK"+fault+"@end\n@end;", true
 		markers = append(markers, "COMP-MARK", "SLOT-MARK")
+	case "after-nested-render":
+		// a custom function renders another template of the directory (one that works, fails or
+		// does not exist) through Response, then the page fails
+		files["page"], fails = b.String()+"{{ \""+rapid.SampledFrom([]string{"other", "other", "nosuchpage", "failing-other"}).Draw(rt, "nested")+"\".zzRenderOther() }}\n"+fault+"\nAFTER-MARK", true
+		files["failing-other"] = "<OTHER-MARK>\n\n\n{{ zzOtherFault }}"
+		markers = append(markers, "AFTER-MARK", "OTHER-MARK")
+	case "ok-nested-render":
+		files["page"] = b.String() + "{{ \"other\".zzRenderOther().raw() }}{{ name }}"
 	case "missing":
 		files["page"] = b.String()
 		page, fails, markers = "nosuchpage", true, nil
@@ -274,7 +300,7 @@ func c17Page(rt *rapid.T) (files map[string]string, page string, markers []strin
 
 func TestC17_Configurations(t *testing.T) {
 	c := harness.New(t, "C17", "configurations",
-		"all combinations of {debug on, off} x {no custom error page, a working one, one that does not exist, one that fails at run time} x generated pages {succeeding (plain, with layout and component); failing at run time after 1..4 uniquely marked chunks at top level, inside a loop pass, inside a layout's insert, inside a component argument, inside a slot body; not existing} x data: success -> nil and body == String(); failure -> non-nil error, no marker of the failed page in the body, body == custom page (working one, debug off) / empty (custom page itself fails, debug off) / built-in page (rendered differentially from default-error-page.tw with the failure's fields); debug off -> neither message nor any path in the body; debug on -> message, path and line in it. One case in eight uses no configuration at all (NewTemplate(nil) over templates/*.tw.html): the documented defaults, debug off and no custom page, apply. Non-trivial: failing page and a non-default configuration, or the defaults. Distinct by hash.")
+		"all combinations of {debug on, off} x {no custom error page, a working one, one that does not exist, one that fails at run time} x generated pages {succeeding (plain, with layout and component); failing at run time after 1..4 uniquely marked chunks at top level, inside a loop pass, inside a layout's insert, inside a component argument, inside a slot body, after a registered function has rendered another template of the directory (working, failing, missing) through Response; not existing} x data: success -> nil and body == String(); failure -> non-nil error, no marker of the failed page in the body, body == custom page (working one, debug off) / empty (custom page itself fails, debug off) / built-in page (rendered differentially from default-error-page.tw with the failure's fields); debug off -> neither message nor any path in the body; debug on -> message, path and line in it (the path being that of the page's own file, where every generated fault is written). One case in eight uses no configuration at all (NewTemplate(nil) over templates/*.tw.html): the documented defaults, debug off and no custom page, apply. Non-trivial: failing page and a non-default configuration, or the defaults. Distinct by hash.")
 	defer c.Finish()
 	runRapid(t, c, 3000, 30000, func(rt *rapid.T) {
 		files, page, markers, fails, note := c17Page(rt)
